@@ -18,13 +18,21 @@ func init() { groups["noise"] = c16GenNoise }
 // ---- the real recvLine ----
 
 type c16Real struct {
-	t *trzsz.VerifLineTransfer
+	t         *trzsz.VerifLineTransfer
+	panicText string // text of the last panic of the real reader
 }
 
 // recv issues one recvLine with every chunk queued beforehand; the timeout fires exactly
 // when the queue has been emptied (see c03Real.read), so "B" is observed deterministically.
-func (r *c16Real) recv(ty string, junk bool) (string, []byte) {
+func (r *c16Real) recv(ty string, junk bool) (kind string, line []byte) {
 	var done atomic.Bool
+	// a panic of the real reader is an observation ("P" + the panic text), not the end of the run
+	defer func() {
+		if p := recover(); p != nil {
+			done.Store(true)
+			kind, line = "P", []byte(fmt.Sprint(p))
+		}
+	}()
 	ch := make(chan time.Time, 1)
 	if r.t.QueueLen() == 0 {
 		ch <- time.Time{}
@@ -64,12 +72,33 @@ func (r *c16Real) run(chunks [][]byte, tys []string, junk bool) []string {
 			continue
 		}
 		res = append(res, k)
+		if k == "P" {
+			r.panicText = string(d)
+		}
 		if k != "I" {
 			break
 		}
 	}
 	r.t.Reset()
 	return res
+}
+
+// c16PanicKey makes a stable key of a panic text (numbers kept: "index out of range [-1]")
+func c16PanicKey(text string) string {
+	var sb strings.Builder
+	for _, r := range text {
+		switch {
+		case r >= 'a' && r <= 'z', r >= 'A' && r <= 'Z', r >= '0' && r <= '9', r == '-':
+			sb.WriteRune(r)
+		default:
+			sb.WriteByte('_')
+		}
+	}
+	k := sb.String()
+	if len(k) > 60 {
+		k = k[:60]
+	}
+	return k
 }
 
 func c16TysStr(tys []string) string {
@@ -504,16 +533,20 @@ func (g *c16Guard) enter(call *c16Call) { g.cur.Store(call); g.beat.Add(1) }
 func (g *c16Guard) leave()              { g.cur.Store(nil); g.beat.Add(1) }
 
 func c16GenNoise(c *ctx) {
-	junkT := &c16Real{trzsz.VerifNewLineTransfer(true, false)}   // TmuxOutputJunk
-	plainT := &c16Real{trzsz.VerifNewLineTransfer(false, false)} // mayHasJunk argument decides
-	winT := &c16Real{trzsz.VerifNewLineTransfer(false, true)}    // windowsProtocol
+	junkT := &c16Real{t: trzsz.VerifNewLineTransfer(true, false)}   // TmuxOutputJunk
+	plainT := &c16Real{t: trzsz.VerifNewLineTransfer(false, false)} // mayHasJunk argument decides
+	winT := &c16Real{t: trzsz.VerifNewLineTransfer(false, true)}    // windowsProtocol
 
 	guard := c16NewGuard(c)
 	strip := func(b []byte) []byte {
 		guard.enter(&c16Call{fn: "strip", input: b})
-		got := junkT.t.StripTmuxStatusLine(append([]byte(nil), b...))
-		guard.leave()
-		return got
+		defer guard.leave()
+		defer func() {
+			if p := recover(); p != nil {
+				c.violate("tmux-strip-panic:"+c16PanicKey(fmt.Sprint(p)), "the real stripTmuxStatusLine panicked on this input: "+fmt.Sprint(p), "input="+hx(b))
+			}
+		}()
+		return junkT.t.StripTmuxStatusLine(append([]byte(nil), b...))
 	}
 	emitStrip := func(nontrivial bool, b []byte) []byte {
 		got := strip(b)
@@ -530,6 +563,10 @@ func c16GenNoise(c *ctx) {
 		guard.leave()
 		modelJunk := junkArg || viaConfig
 		c.emit(nontrivial, "junk_run", c03ResStr(res), c16TysStr(tys), str01(modelJunk), c03ChunksStr(chunks))
+		if len(res) > 0 && res[len(res)-1] == "P" {
+			c.violate("tmux-reader-panic:"+c16PanicKey(t.panicText), "the real recvLine (junk-tolerant path) panicked on this input: "+t.panicText,
+				fmt.Sprintf("read#%d expect=%s stream=%s chunks=%s results=%s", len(res), c16TysStr(tys), hx(bytes.Join(chunks, nil)), c03ChunksStr(chunks), c03ResStr(res)))
+		}
 		return res
 	}
 	emitWin := func(nontrivial bool, chunks [][]byte, tys []string) []string {
@@ -537,6 +574,11 @@ func c16GenNoise(c *ctx) {
 		res := winT.run(chunks, tys, false)
 		guard.leave()
 		c.emit(nontrivial, "win_run", c03ResStr(res), c16TysStr(tys), c03ChunksStr(chunks))
+		if len(res) > 0 && res[len(res)-1] == "P" {
+			c.count("win:panic")
+			c.violate("win-reader-panic:"+c16PanicKey(winT.panicText), "the real recvLine (Windows framing) panicked on this input: "+winT.panicText,
+				fmt.Sprintf("read#%d expect=%s stream=%s chunks=%s results=%s", len(res), c16TysStr(tys), hx(bytes.Join(chunks, nil)), c03ChunksStr(chunks), c03ResStr(res)))
+		}
 		return res
 	}
 
@@ -947,6 +989,45 @@ func c16GenNoise(c *ctx) {
 				c.violate("win-unrecovered:"+c16Kinds(w.kinds), "a protocol line with documented Windows-console noise is not recovered by recvLine", detail)
 			}
 			break // later lines of a broken stream are not informative
+		}
+	}
+	// noise in front of the FIRST character of a line, with nothing collected yet: every noise
+	// kind (and the pairs of kinds) at offset 0 of the first line and of a line that follows a
+	// terminator, in every chunking class; direct oracle: both payloads come back
+	{
+		kinds := []struct {
+			name  string
+			noise string
+		}{
+			{"pad", " \x08"}, {"cr", "\r"}, {"newline", "\n"}, {"crlf", "\r\n"}, {"vt100", "\x1b[01;32m"}, {"erase", "\x1b[238X\x1b[238C"},
+			{"move", "\x1b[25;119H"}, {"home", "\x1b[H"}, {"crlf+move", "\r\n\x1b[25;119H"}, {"move+crlf", "\x1b[60;238H\x1b[?25h\r\n"},
+			{"newline+move+vt100", "\n\x1b[29;120H\x1b[?25l"}, {"crlf+move+move", "\r\n\x1b[1;1H\x1b[2;7H"}, {"move+move+newline", "\x1b[3;4H\x1b[5;60H\n"},
+			{"crlf+home", "\r\n\x1b[H"}, {"vt100+crlf+move+pad", "\x1b[?25h\r\n\x1b[30;1H "},
+		}
+		l1, l2 := "#SUCC:eJzy8XR29Qt2", "#DATA:1TMCBAAA//8="
+		for _, ka := range kinds {
+			for _, kb := range kinds {
+				if ka.name != kb.name && ka.name != "pad" && kb.name != "pad" && ka.name != "crlf+move" && kb.name != "crlf+move" {
+					continue // every kind in front of each line, alone and paired with the plain / the critical one
+				}
+				for _, lf := range []string{"\n", ""} {
+					stream := []byte(ka.noise + l1 + "!" + lf + kb.noise + l2 + "!\n")
+					cut := len(ka.noise) + len(l1) + 1 + len(lf)
+					chunkings := [][][]byte{{stream}, c.split(stream, 1), {stream[:cut], stream[cut:]},
+						{stream[:cut+len(kb.noise)], stream[cut+len(kb.noise):]}, c.split(stream, 1+c.rng.Intn(9))}
+					if len(ka.noise) > 1 {
+						chunkings = append(chunkings, [][]byte{stream[:len(ka.noise)-1], stream[len(ka.noise)-1:]})
+					}
+					for _, cs := range chunkings {
+						res := emitWin(true, cs, []string{"SUCC", "DATA", "X"})
+						c.count("win:line-start")
+						if len(res) < 2 || res[0] != "d"+hx([]byte(l1)) || res[1] != "d"+hx([]byte(l2)) {
+							c.violate("win-unrecovered:line-start:"+ka.name+"|"+kb.name, "console noise in front of the first character of a line: the lines are not recovered",
+								fmt.Sprintf("noise-before-line1=%q noise-before-line2=%q stream=%s chunks=%s results=%s", ka.noise, kb.noise, hx(stream), c03ChunksStr(cs), c03ResStr(res)))
+						}
+					}
+				}
+			}
 		}
 	}
 	// the two known findings, deliberately, every run
